@@ -1,10 +1,13 @@
 #!/bin/bash
-# Re-run every filed seeded change against the first check recorded as catching it: tools/run_seeded.sh [quick|thorough] [name-prefix]
-tier=${1:-quick}; pre=${2:-}
+# Re-run every filed seeded change against the first check recorded as catching it: tools/run_seeded.sh [quick|thorough] [name-prefix] [--save]
+# --save: keep the shrunk counterexample of each as regress/<check>/<seeded-name>__<file> (the committed replay tier)
+tier=${1:-quick}; pre=${2:-}; save=${3:-}
 cd /verif
 for d in seeded/${pre}*/; do
   n=$(basename $d)
   id=$(python3 -c "import json;print(json.load(open('$d/meta.json'))['caught_by'][0])")
+  rm -rf replays/$id
   res=$(tools/try_mutant.sh /verif/$d/patch.diff $tier $id 2>&1 | grep -E "^$id rc=" | head -n 1 | cut -c1-120)
   echo "$n -> $res"
+  if [ "$save" = "--save" ] && [ -d replays/$id ]; then mkdir -p regress/$id; k=0; for f in replays/$id/*; do if [ -f "$f" ] && [ $k -lt 2 ]; then case "$(basename $f)" in *.case|crash-*|leak-*) cp "$f" "regress/$id/${n}__$(basename $f)"; k=$((k+1));; esac; fi; done; fi
 done
